@@ -217,7 +217,7 @@ def compare(ck, cases, drv, model, label, stats, asan=None):
             stats['nontrivial'].add((fn, s))
         if a != b:
             dis += 1
-            if dis > 20:
+            if dis > 5:
                 continue
             ref = ref_line(fn, s)
             if a != ref:
